@@ -31,6 +31,7 @@ type CallSpec struct {
 	Rs2, Rs3 int // response padding/arg3 sizes (-1: mirror the request)
 	WritePat int // 0 single write, 1 small random writes, 2 byte-wise (bounded), 3 random writes + flushes
 	ReadPat  int // 0 read to EOF, 1 exact length then Close, 2 small random reads
+	ReadPat3 int // pattern for arg3 when it differs from arg2's: value-1 (0 = same as ReadPat)
 	CancelAfter time.Duration // >0: the caller cancels its context after this long
 	Opts     *tchannel.CallOptions
 	Via      string // description of the path (direct / relay name)
@@ -373,7 +374,11 @@ func (w *World) Call(r *CallRec) {
 		return
 	}
 	r.AppErr = resp.ApplicationError()
-	a3, err := readArg(resp.Arg3Reader())(s.ReadPat, len(r.wantRes3))
+	rp3 := s.ReadPat
+	if s.ReadPat3 > 0 {
+		rp3 = s.ReadPat3 - 1
+	}
+	a3, err := readArg(resp.Arg3Reader())(rp3, len(r.wantRes3))
 	r.Read3 = len(a3)
 	if err != nil {
 		finish(err)
@@ -418,6 +423,13 @@ func (w *World) checkCallOutcome(r *CallRec) {
 	if r.EndAt > r.Deadline+slack {
 		w.violate("C05", "deadline-overrun", "call %s (%s) returned at %v, deadline %v (+%v injected stall): overrun %v; err=%s",
 			s.Tag, s.Via, r.EndAt, r.Deadline, r.StallIn, r.EndAt-r.Deadline-r.StallIn, errStr(r.Err))
+	}
+	if r.Err != nil && w.corruptPlanned == false && strings.Contains(r.Err.Error(), "checksum") {
+		// nobody altered a byte in transit in this run: a checksum failure means the library
+		// mixed up its own state (e.g. one checksum object serving two messages)
+		d := fmt.Sprintf("call %s (%s) failed with %q although no byte was altered in transit in this run", s.Tag, s.Via, r.Err.Error())
+		w.violate("C04", "spurious-checksum-error", "%s", d)
+		w.violate("C02", "spurious-checksum-error", "%s", d)
 	}
 	if s.NoCheck {
 		return
